@@ -11,6 +11,30 @@ def hexdump_payload(lines):
     return bytes(parse(lines))
 
 
+def isolated_fresh(case, j):
+    """optional section j of the generated PEL alone behind the two headers, decoded in a brand-new interpreter:
+    what the section's own bytes display as when nothing else has been decoded.  Returns the section's document or None."""
+    import subprocess
+    from collections import OrderedDict
+    data = case["data"]
+    offs = case["offsets"]
+    ph = bytearray(data[:48])
+    ph[27] = 3
+    pel = bytes(ph) + data[48:72] + data[offs[j]:offs[j + 1]]
+    cmd = [common.PY, os.path.join(common.VERIF, "harness", "impl_worker.py"), common.ROOT]
+    try:
+        p = subprocess.run(cmd, input=json.dumps(dict(op="decode_plain", hex=pel.hex(), plugins=case["plugins"])) + "\n",
+                           capture_output=True, text=True, env=common.IMPL_ENV, timeout=60)
+        ans = json.loads(p.stdout.splitlines()[-1])
+        if ans.get("kind") != "ok":
+            return None
+        doc = json.loads(ans["text"], object_pairs_hook=OrderedDict)
+        keys = list(doc.keys())
+        return doc[keys[2]] if len(keys) == 3 else None
+    except Exception:  # noqa: BLE001
+        return None
+
+
 def sections_of(case, model):
     """(key, id) pairs of optional sections as the specification names them"""
     exp = case["expected"]
@@ -48,6 +72,10 @@ def check_case(run, model, case, pid, corpus_tag=None):
 
     # ---- framing (C01): the decoder must accept the PEL, start every section header at the prefix sums of the
     # declared lengths, stop at the end, and name the sections as the specification does
+    if impl["kind"] == "hang":
+        if pid in ("C01", "C05"):
+            run.violation("hang", "the decoder does not terminate on a well-formed PEL", dict(replay, actual="hang"))
+        return
     if impl["kind"] != "ok":
         # a well-formed PEL was not decoded: attribute to the section kind that follows an SRC if that is the pattern
         what = "well-formed PEL rejected (%s: %s)" % (impl.get("exc"), impl.get("msg"))
@@ -77,6 +105,16 @@ def check_case(run, model, case, pid, corpus_tag=None):
             if d and owner == pid:
                 run.violation("display:" + diff_key(d), "specification and decoder disagree at %s" % d,
                               dict(replay, expected=expected[k], actual=doc[k], where=d))
+            elif d and pid == "C01" and list(doc.keys()) == list(expected.keys()):
+                # the section is shown wrongly; is that its own decoder's business (C02-C04), or does what is shown depend on
+                # something else than the section's bytes?  The same bytes alone, in a fresh interpreter, tell.
+                j = list(expected.keys()).index(k) - 2
+                alone = isolated_fresh(case, j) if 0 <= j < len(case["ids"]) else None
+                run.count("isolated-section-decodes")
+                if alone is not None and pelgen.first_diff(expected[k], alone) is None:
+                    run.violation("framing:context", "section %s is shown differently from what its own bytes decode to alone (%s): the display "
+                                  "depends on the sections or PELs decoded before it" % (k, d),
+                                  dict(replay, expected=expected[k], actual=doc[k], where=d))
             if pid == "C01" and "Data" in expected[k] and isinstance(expected[k]["Data"], list) and isinstance(doc[k].get("Data"), list):
                 # a section decoded from shifted bytes shows a shifted payload even when the keys are right
                 try:
